@@ -391,7 +391,9 @@ func init() {
 					f.PGroup = 0.3
 					f.Ctors = 4
 					f.Decs = 0
-				}), rec, 120, 800, 0),
+				}), rec, 100, 800, 0),
+				structCover("keys", fam.Keys, rec, false, 40, 0, 2, 0),
+				wideCover("keys", fam.Keys, rec, false, 200, 0),
 			},
 			traces: stdTraces("keys", tweak(medium, func(f *fam.Features) { f.Types = 3; f.PNamed = 0.4; f.PAs = 0.3 }), 0, stdOpts),
 			sig:    true})})
@@ -408,6 +410,7 @@ func init() {
 				structCover("groups", fam.Groups, rec, false, 30, 0, 2, 0),
 				wideCover("groups", fam.Groups, rec, false, 120, 0),
 				wideCover("softnest", fam.SoftNest, rec, false, 60, 0),
+				wideCover("keys", fam.Keys, rec, false, 100, 0),
 				randCover("groups-rand", tweak(small, groupy), rec, 60, 500, 0),
 			},
 			traces: stdTraces("groups", tweak(medium, groupy), 0, stdOpts)})})
